@@ -8,8 +8,24 @@ func VerifEqualT(a, b *T) bool {
 	if a.tType != b.tType || a.objectClass != b.objectClass || a.key != b.key || a.frame != b.frame ||
 		a.method != b.method || a.hasDefault != b.hasDefault || a.isBuiltin != b.isBuiltin ||
 		a.IsBuiltinAsterisk != b.IsBuiltinAsterisk || a.IsConditionalReturn != b.IsConditionalReturn ||
-		a.IsDestructive != b.IsDestructive || a.isReadOnly != b.isReadOnly || a.IsBlockGiven != b.IsBlockGiven {
+		a.IsDestructive != b.IsDestructive || a.isReadOnly != b.isReadOnly || a.IsBlockGiven != b.IsBlockGiven ||
+		a.IsProtected != b.IsProtected || a.IsStatic != b.IsStatic || a.DefinedFrame != b.DefinedFrame ||
+		a.DefinedClass != b.DefinedClass || a.DefinedMethod != b.DefinedMethod || a.IsCaptureOwner != b.IsCaptureOwner ||
+		a.IsExtend != b.IsExtend || a.IsInclude != b.IsInclude {
 		return false
+	}
+	if len(a.blockParamaters) != len(b.blockParamaters) || len(a.defineArgs) != len(b.defineArgs) {
+		return false
+	}
+	for i := range a.blockParamaters {
+		if !VerifEqualT(&a.blockParamaters[i], &b.blockParamaters[i]) {
+			return false
+		}
+	}
+	for i := range a.defineArgs {
+		if a.defineArgs[i] != b.defineArgs[i] {
+			return false
+		}
 	}
 	av, aok := a.val.(*T)
 	bv, bok := b.val.(*T)
@@ -76,4 +92,99 @@ func VerifBuiltinUnchanged(s *VerifSnap) bool {
 		}
 	}
 	return true
+}
+
+// VerifDiffT names the first field in which two T values differ ("" if none).
+func VerifDiffT(a, b *T) string {
+	switch {
+	case a == nil || b == nil:
+		if a == b {
+			return ""
+		}
+		return "nil"
+	case a.tType != b.tType:
+		return "tType"
+	case a.objectClass != b.objectClass:
+		return "objectClass"
+	case a.key != b.key:
+		return "key"
+	case a.frame != b.frame:
+		return "frame"
+	case a.method != b.method:
+		return "method"
+	case a.hasDefault != b.hasDefault:
+		return "hasDefault"
+	case a.isBuiltin != b.isBuiltin:
+		return "isBuiltin"
+	case a.IsBuiltinAsterisk != b.IsBuiltinAsterisk:
+		return "IsBuiltinAsterisk"
+	case a.IsConditionalReturn != b.IsConditionalReturn:
+		return "IsConditionalReturn"
+	case a.IsDestructive != b.IsDestructive:
+		return "IsDestructive"
+	case a.isReadOnly != b.isReadOnly:
+		return "isReadOnly"
+	case a.IsBlockGiven != b.IsBlockGiven:
+		return "IsBlockGiven"
+	case a.IsProtected != b.IsProtected:
+		return "IsProtected"
+	case a.IsStatic != b.IsStatic:
+		return "IsStatic"
+	case a.DefinedFrame != b.DefinedFrame:
+		return "DefinedFrame"
+	case a.DefinedClass != b.DefinedClass:
+		return "DefinedClass"
+	case a.DefinedMethod != b.DefinedMethod:
+		return "DefinedMethod"
+	case a.IsCaptureOwner != b.IsCaptureOwner:
+		return "IsCaptureOwner"
+	case a.IsExtend != b.IsExtend:
+		return "IsExtend"
+	case a.IsInclude != b.IsInclude:
+		return "IsInclude"
+	case len(a.blockParamaters) != len(b.blockParamaters):
+		return "blockParamaters"
+	case len(a.defineArgs) != len(b.defineArgs):
+		return "defineArgs"
+	case len(a.variants) != len(b.variants):
+		return "variants"
+	}
+	if !VerifEqualT(a, b) {
+		return "nested"
+	}
+	return ""
+}
+
+// VerifBuiltinDiff names the first snapshotted builtin method entry that changed and the
+// field that differs: "Class.method/field" ("" when the table is unchanged).
+func VerifBuiltinDiff(s *VerifSnap) string {
+	best := ""
+	note := func(d string) {
+		if best == "" || d < best {
+			best = d
+		}
+	}
+	for i, k := range s.keys {
+		name := k.targetClass + "." + k.targetMethod
+		cur, ok := TFrame[k]
+		if !ok {
+			note(name + "/removed")
+			continue
+		}
+		if d := VerifDiffT(cur, s.vals[i]); d != "" {
+			note(name + "/" + d)
+			continue
+		}
+		if len(cur.Overloads) != len(s.vals[i].Overloads) {
+			note(name + "/Overloads")
+			continue
+		}
+		for j := range cur.Overloads {
+			if d := VerifDiffT(&cur.Overloads[j], &s.vals[i].Overloads[j]); d != "" {
+				note(name + "/overload-" + d)
+				break
+			}
+		}
+	}
+	return best
 }
